@@ -5,7 +5,7 @@ Only property theorems live here (helper lemmas: Ymq/Lemmas/Factor*.lean).
 Scope: the control flow of `factor` / `factor_impl` / `check_factors` (src/lib.rs) around the
 sub-algorithms, which are oracle fields constrained by `OracleOK`
 (Ymq/Lemmas/FactorOracle.lean). Panic sites covered: `assert!(n.bits() <= 64)` ×3,
-`unreachable!("impossible")` ×2, `n / d` with `d = 0`, `residue /= gcd` with `gcd = 0`,
+`unreachable!("impossible")` ×2 (both shown dead), `n / d` with `d = 0`, `residue /= gcd` with `gcd = 0`,
 `assert!(residue.is_one())`, `assert_eq!(n, p)` and `assert_eq!(*n, product)` in
 `check_factors`; termination: every recursive call is on a proper divisor, so the recursion
 depth is at most `bits n` (the model's `.fuel` outcome cannot occur with `fuel ≥ bits n`).
@@ -18,75 +18,70 @@ open Ymq.Factor
 
 variable {σ : Type}
 
-/-- **Counter-witness to the full statement** (`factor_total` below): selector `Rho`, an oracle
-satisfying the whole contract whose `rho` returns `None` on the composite 47053 = 211·223
-(n = 188212 = 2²·47053; 18 bits, precondition `bits ≤ 64` met, fuel ample, abort never
-requested). In lib.rs the `Algo::Rho` arm then neither returns nor pushes: control leaves the
-`match`, passes `prefs.abort()`, and reaches `_ => unreachable!("impossible")` (lib.rs:486). -/
-theorem rho_fallthrough_panics :
-    OracleOK Toy.toyNoRho ∧ SelectorPre .rho 188212 ∧ bits 188212 ≤ 20 ∧
-      factor Toy.toyNoRho 20 188212 .rho () = .panic "unreachable!(impossible)" :=
-  ⟨Toy.toyNoRho_ok, fun _ => by decide +kernel, by decide +kernel, by decide +kernel⟩
+/-- **`factor_total`** (full statement, all ten selectors). Under the oracle contract, for every
+`n` (inputs above 510 bits are refused with the declared failure), every selector whose size
+precondition is met (`SelectorPre`: Qs64/Rho/Squfof need `bits n ≤ 64`), every `prime` and
+`abort` behaviour and fuel `≥ bits n`: `factor` returns a list (whose product is `n`) or the
+declared failure value — never a panic site of lib.rs, never fuel exhaustion (= the recursion
+terminates, depth ≤ bits n).
 
-/-- **`factor_total_partial`**. Under the oracle contract, for every `n` (inputs above 510 bits
-are refused with the declared failure), every selector whose size precondition is met
-(`SelectorPre`: Qs64/Rho/Squfof need `bits n ≤ 64`), every `prime` and `abort` behaviour and
-fuel `≥ bits n`: `factor` returns a list (whose product is `n`) or the declared failure value —
-never a panic site of lib.rs, never fuel exhaustion (= the recursion terminates, depth ≤ bits n).
-
-PARTIAL: the hypothesis `hrho` excludes exactly the case exhibited by
-`rho_fallthrough_panics`: selector `Rho` and `pollard_rho::rho` returning `None` on a number
-that `pseudoprime` has just rejected (`RhoNeverFails`, stated with the exact oracle states).
-The FULL statement is
-
-  theorem factor_total (o : Oracle σ) (hok : OracleOK o) (fuel n : Nat) (alg : Algo) (os : σ)
-      (hsel : SelectorPre alg n) (hfuel : bits n ≤ fuel) :
-      (∃ l, factor o fuel n alg os = .ok l ∧ l.prod = n) ∨ factor o fuel n alg os = .failure
-
-and is FALSE for the code as it is (`rho_fallthrough_panics`). What is missing is on the code
-side: the `Algo::Rho` arm must `factors.push(n); return` when `rho` fails. -/
-theorem factor_total_partial (o : Oracle σ) (hok : OracleOK o) (fuel n : Nat) (alg : Algo)
-    (os : σ) (hsel : SelectorPre alg n) (hfuel : bits n ≤ fuel)
-    (hrho : alg = .rho → RhoNeverFails o) :
+History: on the tree as given this statement was FALSE for selector `Rho`. When
+`pollard_rho::rho` returned `None` on a composite, the `Algo::Rho` arm neither pushed nor
+returned; control left the `match`, passed `prefs.abort()` and reached
+`_ => unreachable!("impossible")`. The model of that tree had a proved counter-witness
+(`rho_fallthrough_panics`: an `OracleOK` oracle with `factor … 188212 .rho = .panic _`) and only
+`factor_total_partial` (extra hypothesis "rho never fails on a rejected number") was provable.
+The defect was then reproduced on the real code (`factor(4611610225450740157, Algo::Rho)`
+panicked) and repaired in /repo (`fix:` 21688e6: the arm pushes `n` and returns, like Squfof);
+the model follows the code, and the full theorem replaces the partial one. -/
+theorem factor_total (o : Oracle σ) (hok : OracleOK o) (fuel n : Nat) (alg : Algo)
+    (os : σ) (hsel : SelectorPre alg n) (hfuel : bits n ≤ fuel) :
     (∃ l, factor o fuel n alg os = .ok l ∧ l.prod = n) ∨ factor o fuel n alg os = .failure :=
-  factor_total_aux hok fuel n alg os hsel hfuel hrho
+  factor_total_aux hok fuel n alg os hsel hfuel
 
-/-- the full statement holds for the nine selectors other than `Rho` (no extra hypothesis) -/
-theorem factor_total_not_rho (o : Oracle σ) (hok : OracleOK o) (fuel n : Nat) (alg : Algo)
-    (os : σ) (halg : alg ≠ .rho) (hsel : SelectorPre alg n) (hfuel : bits n ≤ fuel) :
-    (∃ l, factor o fuel n alg os = .ok l ∧ l.prod = n) ∨ factor o fuel n alg os = .failure :=
-  factor_total_aux hok fuel n alg os hsel hfuel (fun h => absurd h halg)
-
-/-- the inner recursion: `factor_impl(n)` with `n ≥ 1` ends with `.ok` under the same
-hypotheses (fuel `bits n` suffices: each recursive call is on a proper divisor). -/
-theorem factorImpl_total_partial (o : Oracle σ) (hok : OracleOK o) (fuel n : Nat) (alg : Algo)
-    (s : St σ) (hn : 1 ≤ n) (hsel : SelectorPre alg n) (hfuel : bits n ≤ fuel)
-    (hrho : alg = .rho → RhoNeverFails o) : ∃ s', factorImpl o fuel n alg s = .ok s' :=
-  factorImpl_total_aux hok alg hrho fuel n s hn hfuel hsel
+/-- **`factorImpl_total`**: the inner recursion — `factor_impl(n)` with `n ≥ 1` ends with `.ok`
+under the same hypotheses (fuel `bits n` suffices: each recursive call is on a proper divisor). -/
+theorem factorImpl_total (o : Oracle σ) (hok : OracleOK o) (fuel n : Nat) (alg : Algo)
+    (s : St σ) (hn : 1 ≤ n) (hsel : SelectorPre alg n) (hfuel : bits n ≤ fuel) :
+    ∃ s', factorImpl o fuel n alg s = .ok s' :=
+  factorImpl_total_aux hok alg fuel n s hn hfuel hsel
 
 /-! ### non-vacuity -/
 
 open Ymq.Factor.Toy
 
-/-- hypotheses satisfiable with selector Rho (an oracle whose `rho` never fails on what its
-`prime` rejects), and the conclusion is the non-trivial disjunct -/
-example : (∃ l, factor toyR 18 188212 .rho () = .ok l ∧ l.prod = 188212) ∨
-    factor toyR 18 188212 .rho () = .failure :=
-  factor_total_partial toyR toyR_ok 18 188212 .rho () (fun _ => by decide +kernel)
-    (by decide +kernel) (fun _ => toyR_rho)
+/-- selector Rho, `rho` succeeding -/
+example : (∃ l, factor toy 18 188212 .rho () = .ok l ∧ l.prod = 188212) ∨
+    factor toy 18 188212 .rho () = .failure :=
+  factor_total toy toy_ok 18 188212 .rho () (fun _ => by decide +kernel) (by decide +kernel)
 
-example : factor toyR 18 188212 .rho () = .ok [2, 2, 211, 223] := by decide +kernel
+example : factor toy 18 188212 .rho () = .ok [2, 2, 211, 223] := by decide +kernel
 
-/-- the `.failure` disjunct is reachable too: a single composite left unsplit -/
+/-- selector Rho, `rho` FAILING on the composite 47053 (the former panic): now the composite is
+left in the list … -/
+example : factor toyNoRho 18 188212 .rho () = .ok [2, 2, 47053] := by decide +kernel
+
+/-- … or, when it is alone, the declared failure is returned -/
+example : factor toyNoRho 16 47053 .rho () = .failure := by decide +kernel
+
+example : (∃ l, factor toyNoRho 16 47053 .rho () = .ok l ∧ l.prod = 47053) ∨
+    factor toyNoRho 16 47053 .rho () = .failure :=
+  factor_total toyNoRho toyNoRho_ok 16 47053 .rho () (fun _ => by decide +kernel)
+    (by decide +kernel)
+
+/-- the `.failure` disjunct through a sieve selector: a single composite left unsplit -/
 example : factor toy 26 (211 * 211 * 223) .qs () = .failure := by decide +kernel
 
 example : (∃ l, factor toy 18 188212 .siqs () = .ok l ∧ l.prod = 188212) ∨
     factor toy 18 188212 .siqs () = .failure :=
-  factor_total_not_rho toy toy_ok 18 188212 .siqs () (by decide) (fun h => by simp at h)
-    (by decide +kernel)
+  factor_total toy toy_ok 18 188212 .siqs () (fun h => by simp at h) (by decide +kernel)
 
 example : ∃ s', factorImpl toy 16 47053 .ecm (initSt () [2, 2]) = .ok s' :=
-  factorImpl_total_partial toy toy_ok 16 47053 .ecm _ (by decide) (fun h => by simp at h)
-    (by decide +kernel) (fun h => by simp at h)
+  factorImpl_total toy toy_ok 16 47053 .ecm _ (by decide) (fun h => by simp at h)
+    (by decide +kernel)
+
+example : ∃ s', factorImpl toyNoRho 16 47053 .rho (initSt () [2, 2]) = .ok s' :=
+  factorImpl_total toyNoRho toyNoRho_ok 16 47053 .rho _ (by decide) (fun _ => by decide +kernel)
+    (by decide +kernel)
 
 end Ymq.C03
